@@ -117,6 +117,29 @@ def generate(repo):
           'algorithm.replace("%s", "") not in options' % CERT, "AuthHandler._generate_key_from_request")
     _need(inspect.getsource(R.sign_ssh_data), 'algorithm.replace("%s", "")' % CERT, "RSAKey.sign_ssh_data")
 
+    # ---- Transport._verify_key: the algorithm comparison and the signature check are unconditional ----
+    # (top-level statements of the function: not nested under an if / else / try, no early return)
+    import ast
+    import textwrap
+    fn = ast.parse(textwrap.dedent(inspect.getsource(T._verify_key))).body[0]
+    top = fn.body
+    cmp_at = [i for i, st in enumerate(top) if isinstance(st, ast.If) and not st.orelse
+              and "get_binary()" in ast.unparse(st.test) and "expected" in ast.unparse(st.test)
+              and isinstance(st.body[-1], ast.Raise)]
+    ver_at = [i for i, st in enumerate(top) if isinstance(st, ast.If) and not st.orelse
+              and "verify_ssh_sig(self.H" in ast.unparse(st.test) and isinstance(st.body[-1], ast.Raise)]
+    exp_at = [i for i, st in enumerate(top) if isinstance(st, ast.Assign)
+              and ast.unparse(st) == "expected = self.host_key_type.replace('%s', '')" % CERT]
+    if len(cmp_at) != 1 or len(ver_at) != 1 or len(exp_at) != 1 or not exp_at[0] < cmp_at[0] < ver_at[0]:
+        raise RuntimeError("Transport._verify_key: the signature-algorithm comparison / verify_ssh_sig check is "
+                           "not an unconditional top-level statement (the model applies both to every call)")
+    for st in top[:ver_at[0]]:
+        if any(isinstance(n, ast.Return) for n in ast.walk(st)):
+            raise RuntimeError("Transport._verify_key returns before the signature checks")
+    src_all = ast.unparse(fn)
+    if src_all.count("verify_ssh_sig") != 1 or "self.host_key is not None" in src_all:
+        raise RuntimeError("Transport._verify_key consults state the model does not describe")
+
     for attr in ("_preferred_keys", "_preferred_pubkeys"):
         if not isinstance(getattr(T, attr), tuple):
             raise TypeError("Transport.%s is not a tuple" % attr)
